@@ -51,6 +51,9 @@ type script struct {
 	stubborn bool
 	// bound overrides the quick preemption bound for this script (thorough adds one)
 	bound int
+	// scratch: the producer hands every Write the same scratch buffer and overwrites it as soon as Write returns
+	// (io.Writer: an implementation must not retain p), as modules that stream from a fixed read buffer do
+	scratch bool
 }
 
 func (s script) String() string {
@@ -64,6 +67,9 @@ func (s script) String() string {
 	}
 	if s.closeEarly {
 		parts = append(parts, fmt.Sprintf("(a third thread closes the writer at any moment; producer ignores errors=%v)", s.stubborn))
+	}
+	if s.scratch {
+		parts = append(parts, "(producer reuses one scratch buffer for every Write)")
 	}
 	return fmt.Sprintf("mtu=%d buffered=%d %s", s.mtu, s.buffered, strings.Join(parts, " "))
 }
@@ -124,6 +130,7 @@ func pipeline(s script, spawn func(func()), wait func(done *bool)) result {
 	var res result
 	reader, writer := serviceinfo.NewChunkOutPipe(s.buffered)
 	prodDone := false
+	scratchBuf := make([]byte, 70000)
 	spawn(func() {
 		defer func() { prodDone = true }()
 		for mi, m := range s.msgs {
@@ -144,7 +151,17 @@ func pipeline(s script, spawn func(func()), wait func(done *bool)) result {
 				if len(part) == 0 && len(m.val) > 0 {
 					continue
 				}
-				if _, err := writer.Write(part); err != nil && !s.stubborn {
+				if s.scratch {
+					k := copy(scratchBuf, part)
+					part = scratchBuf[:k]
+				}
+				_, werr := writer.Write(part)
+				if s.scratch {
+					for x := range scratchBuf {
+						scratchBuf[x] = 0xEE
+					}
+				}
+				if err := werr; err != nil && !s.stubborn {
 					res.writerErr = fmt.Errorf("Write: %w", err)
 					_ = writer.Close()
 					return
@@ -453,6 +470,9 @@ func sweep(thorough bool) {
 							continue
 						}
 						run(script{mtu: mtu, msgs: []msg{{"m", name, val(vl, 3), splits, y}, {"m", name, val(2, 5), 1, false}, {"n", "z", val(1, 7), 1, y}}})
+						if splits == 3 {
+							run(script{mtu: mtu, buffered: 8, scratch: true, msgs: []msg{{"m", name, val(vl, 3), splits, y}, {"m", name, val(2, 5), 1, false}, {"n", "z", val(1, 7), 1, y}}})
+						}
 					}
 				}
 			}
@@ -523,6 +543,11 @@ func schedScripts(thorough bool) []script {
 		script{mtu: 32, closeEarly: true, stubborn: true, bound: 1, msgs: []msg{{"m", "a", val(3, 1), 1, false}, {"m", "b", val(2, 2), 1, false}}},
 		script{mtu: 32, closeEarly: true, stubborn: true, msgs: []msg{{"m", "a", val(3, 1), 1, true}}},
 		script{mtu: 32, buffered: 2, closeEarly: true, stubborn: true, bound: 1, msgs: []msg{{"m", "a", val(3, 1), 1, true}, {"m", "b", val(2, 2), 1, true}, {"m", "c", val(2, 3), 1, false}}})
+	// a producer that reuses its buffer: single writes of a kilobyte and more through buffered pipes (every order of
+	// "consumer takes the key" and "producer writes the value" is among the schedules)
+	scripts = append(scripts,
+		script{mtu: 1300, buffered: 4, scratch: true, bound: 1, msgs: []msg{{"m", "a", val(1500, 1), 1, true}, {"m", "b", val(1200, 2), 1, false}}},
+		script{mtu: 1300, buffered: 4, scratch: true, bound: 1, msgs: []msg{{"m", "a", val(2600, 1), 2, false}, {"m", "a", val(100, 2), 1, false}}})
 	if thorough {
 		scripts = append(scripts, script{mtu: 28, buffered: 1, msgs: []msg{{"m", "k", val(20, 1), 3, false}, {"m", "l", val(20, 2), 1, false}, {"m", "l", val(1, 3), 1, true}}})
 	}
